@@ -1,5 +1,6 @@
 import FinProtoc.SpecOf
 import FinProtoc.Visit
+import FinProtoc.Generated.Facts
 /-!
 # C08 — generated code depends on meaning, not spelling
 
@@ -96,5 +97,30 @@ theorem metadata_typed_field (cfg : Config) (metas : List (String × DTy)) (attr
     fieldOf cfg metas attrs (.obj rep ft (some fname) none comma) =
       fieldOf cfg metas attrs (.metaF rep { ty, name := fname, doc := none, comma }) := by
   simp [fieldOf, hm, hty]
+
+/-! ## T1: alias table and option defaults of the models are those of `model.go` as it stands now
+
+`Generated.aliasTable` is every `case "a", "b": return "c"` of `getBasicType`, `Generated.aliasSubject` what the switch is on,
+`Generated.configDefaults` the constant fields of the defaults literal of `NewConfiguration` — rewritten from the source by
+`tools/facts` on every run of this check. -/
+
+/-- the visitor model's normalisation table is the switch of `getBasicType` … -/
+theorem alias_table_tied : ∀ kv ∈ Generated.aliasTable, Visit.basicTypeCanon kv.1 = some kv.2 := by decide
+
+/-- … taken on the lower-cased spelling, as the model does (`getBasicType t = (basicTypeCanon t.toLower).getD t`) -/
+theorem alias_subject_tied : Generated.aliasSubject = "strings.ToLower(fieldType)" := by decide
+
+theorem getBasicType_def (t : String) : Visit.getBasicType t = (Visit.basicTypeCanon t.toLower).getD t := rfl
+
+/-- every spelling the code normalises means the scalar type of its canonical name in the wire specification too -/
+theorem alias_table_spec : ∀ kv ∈ Generated.aliasTable,
+    Scalar.ofName? kv.1 = Scalar.ofName? kv.2 ∧ (Scalar.ofName? kv.1).isSome = true := by decide
+
+/-- the defaults of `NewConfiguration` are the defaults of the model's `configOfOptions` -/
+theorem config_defaults_tied :
+    Generated.configDefaults =
+      (let c := Visit.configOfOptions []
+       [("GoModule", c.gomod), ("GoPackage", c.gopkg), ("JavaPackage", c.java), ("ListLenPrefixLenType", c.list), ("LittleEndian", toString c.le),
+        ("Padding.PadChar", c.pad.ch), ("Padding.PadLeft", toString c.pad.left), ("StringLenPrefixLenType", c.str)]) := by decide
 
 end FinProtoc.Props
